@@ -259,7 +259,7 @@ def run_case(case):
                 except O.Unsupported as ex:
                     count("oracle_unsupported")
                     continue
-                err, bound, status = H.compare(A.astype(wide), R, S, scalar, 0.0, ops=16)
+                err, bound, status = H.compare(A.astype(wide), R, S, scalar, getattr(comp, "table_delta", 0.0), ops=16, floor=0.1)
                 if status == "ok":
                     count("compared_ok")
                     if np.max(S) > 1e-6:
